@@ -57,6 +57,10 @@ pub struct GenFont {
     pub cmap: BTreeMap<u32, u16>,
     pub advances: Vec<u16>,
     pub has_gdef: bool,
+    /// `kern` table (version 0, one horizontal format 0 subtable); empty = no table
+    pub kern_pairs: Vec<(u16, u16, i16)>,
+    /// vhea + vmtx advance heights; None = no vertical metrics
+    pub vadvances: Option<Vec<u16>>,
     pub bytes: Vec<u8>,
 }
 
@@ -324,6 +328,23 @@ fn write_gdef(num_glyphs: u16) -> Vec<u8> {
     w.b
 }
 
+fn write_kern(pairs: &[(u16, u16, i16)]) -> Vec<u8> {
+    let mut m: BTreeMap<(u16, u16), i16> = BTreeMap::new();
+    for &(a, b, v) in pairs {
+        m.entry((a, b)).or_insert(v);
+    }
+    let n = m.len() as u16;
+    let (sr, es, rs) = crate::sfnt::search_fields(n, 6);
+    let mut w = W::new();
+    w.u16(0).u16(1);
+    w.u16(0).u16(14 + 6 * n).u16(0x0001);
+    w.u16(n).u16(sr).u16(es).u16(rs);
+    for ((a, b), v) in &m {
+        w.u16(*a).u16(*b).i16(*v);
+    }
+    w.b
+}
+
 // ---- generator ----------------------------------------------------------------------------------
 
 pub const GSUB_FEATURES: &[&str] = &["liga", "calt", "ccmp", "clig", "locl", "rlig", "smcp", "onum", "rvrn"];
@@ -504,8 +525,28 @@ pub fn gen_font(rng: &mut Rng) -> GenFont {
     if has_gdef {
         f.sets("GDEF", write_gdef(NUM_GLYPHS));
     }
+    let mut kern_pairs = Vec::new();
+    if rng.bool() {
+        for _ in 0..1 + rng.below(6) {
+            let p = (1 + rng.below(LETTERS as usize) as u16, 1 + rng.below(LETTERS as usize) as u16, rng.range(-150, 150) as i16);
+            if !kern_pairs.iter().any(|q: &(u16, u16, i16)| q.0 == p.0 && q.1 == p.1) {
+                kern_pairs.push(p);
+            }
+        }
+        f.sets("kern", write_kern(&kern_pairs));
+    }
+    let vadvances = if rng.bool() {
+        let v: Vec<u16> = (0..NUM_GLYPHS).map(|g| 1000 + 7 * g).collect();
+        let metrics: Vec<(u16, i16)> = v.iter().map(|a| (*a, 0i16)).collect();
+        f.sets("vmtx", write_hmtx(&metrics, NUM_GLYPHS as usize));
+        let vhea = Hhea { ascender: 500, descender: -500, advance_width_max: 2000, num_h_metrics: NUM_GLYPHS, caret_slope_rise: 0, caret_slope_run: 1, ..Default::default() };
+        f.sets("vhea", vhea.write());
+        Some(v)
+    } else {
+        None
+    };
     let bytes = f.build();
-    GenFont { gsub, gpos, axes, num_glyphs: NUM_GLYPHS, cmap, advances, has_gdef, bytes }
+    GenFont { gsub, gpos, axes, num_glyphs: NUM_GLYPHS, cmap, advances, has_gdef, kern_pairs, vadvances, bytes }
 }
 
 // ---- model --------------------------------------------------------------------------------------
@@ -657,6 +698,10 @@ impl GenFont {
         match feat {
             Feat::Mask(t) | Feat::Custom(t) => feats.extend(t.iter().copied()),
         }
+        // no language system at all: GPOS does nothing (not even the kern table fallback)
+        if p.langsys(script, lang).is_none() {
+            return glyphs.into_iter().zip(kern).collect();
+        }
         for t in feats {
             if let Some(mut ls) = p.feature_lookups(script, lang, t, tuple) {
                 ls.sort();
@@ -665,6 +710,12 @@ impl GenFont {
                     if let Some(lk) = p.lookups.get(l as usize) {
                         apply_gpos_lookup(lk, &glyphs, &mut kern);
                     }
+                }
+            } else if t == tag("kern") && !self.kern_pairs.is_empty() {
+                // `kern` requested but not in GPOS: the kern table sets (not adds) the kerning of
+                // every glyph that has a successor
+                for i in 0..glyphs.len().saturating_sub(1) {
+                    kern[i] = self.kern_pairs.iter().find(|q| q.0 == glyphs[i] && q.1 == glyphs[i + 1]).map_or(0, |q| q.2 as i32);
                 }
             }
         }
